@@ -2010,13 +2010,14 @@ func (d *delegation) withdraw(args *vmcommon.ContractCallInput) vmcommon.ReturnC
 
 		totalUnBonded.Add(totalUnBonded, fund.Value)
 		if totalUnBonded.Cmp(actualUserUnBond) > 0 {
-			unBondedFromThisFund := big.NewInt(0).Sub(totalUnBonded, actualUserUnBond)
-			fund.Value.Sub(fund.Value, unBondedFromThisFund)
+			remainingInThisFund := big.NewInt(0).Sub(totalUnBonded, actualUserUnBond)
+			fund.Value.Set(remainingInThisFund)
 			err = d.saveFund(fundKey, fund)
 			if err != nil {
 				d.eei.AddReturnMessage(err.Error())
 				return vmcommon.UserError
 			}
+			tempUnStakedFunds = append(tempUnStakedFunds, delegator.UnStakedFunds[fundIndex:]...)
 			break
 		}
 		d.eei.SetStorage(fundKey, nil)
